@@ -62,6 +62,26 @@ def cases(ctx):
             xs[-1] = dom
         out.append({"dt": dt, "level": rng.choice([4, 8, 12]), "order": 0, "gcds": rng.below(2),
                     "chunks": [xs], "kinds": ["periodic-dominant"], "drain": 0})
+    # two chunks over ONE value set with inverted mixtures (chunk 0: almost only the small cluster, chunk 1: almost only
+    # the wide values): a table, code or weight carried over from the previous chunk costs chunk 1 more than W + 4 bits
+    for _ in range(2 if ctx.quick else 12):
+        dt = rng.choice(["u32", "i32", "u64", "i64", "f32", "micros"])
+        P, W, kind, pps = C.DTYPES[dt]
+        # seven far-apart clusters with geometric weights (their codes get 1, 2, ... 7 bits) and 100 values spread over
+        # half the type's range (rare in chunk 0: a long code; almost everything in chunk 1)
+        clusters = [[G.from_signed_val(dt, (j << 20) + v) for v in range(64)] for j in range(7)]
+        span = 1 << (W - 1)
+        wide = [G.from_signed_val(dt, (1 << 24) + (i * (span - (1 << 25))) // 100 + rng.below(1000)) for i in range(100)]
+        def small_draw():
+            j = 0
+            while j < 6 and rng.chance(1, 2):
+                j += 1
+            return rng.choice(clusters[j])
+        def mix(n, share_wide):
+            xs = [(rng.choice(wide) if rng.below(1000) < share_wide else small_draw()) for _ in range(n)]
+            return [v for cl in clusters for v in cl] + wide + xs            # every value occurs in both chunks
+        out.append({"dt": dt, "level": rng.choice([8, 8, 6]), "order": 0, "gcds": rng.below(2),
+                    "chunks": [mix(20000, 1), mix(20000 if ctx.quick else 60000, 998)], "kinds": ["inverted-mixtures"], "drain": 0})
     for _ in range(800 if ctx.quick else 8000):
         out.append(S.enc_case(rng))
     # a nearly full-range uniform bulk plus hundreds of tight clusters at level 12: one merged range holds most numbers and
